@@ -204,7 +204,7 @@ def run(prog, rep, tier):
             is_gp = lambda k, ob, b3: k == 'call' and b3 == gpb.idx
             st = guard[3]
             # p = get_extracted_path(output_dir, fname)
-            pop = c.term.args[0]
+            pop = c.term.args[-1] if cnorm(c.term) == 'std::fs::OpenOptions::open' else c.term.args[0]   # open(&self, path)
             okp = pop.place is not None and must_derive(cf, pop.place[0], is_gp)
             # get_extracted_path receives the two parameters
             a0, a1 = gpb.term.args[0], gpb.term.args[1]
@@ -245,6 +245,38 @@ def run(prog, rep, tier):
                 ok = b.term.args[0].place is not None and must_derive(cf, b.term.args[0].place[0], lambda k, ob, b3: k == 'call' and (b3 == gpb.idx), extra_transparent=('parent',))
                 rep.ob('R16.2', ok, 'R16.2|%s|create_dir_all|parent-of-filtered-path' % cf.nkey, 'directories created only for parent(get_extracted_path(..))' if ok else 'create_dir_all on a path that is not the parent of the filtered path', cf.loc(b.idx))
 
+    # ---------------- R16.5 "extracted ... with exactly their content": the destination is created empty (File::create, create_new, or OpenOptions with
+    # create + truncate / create_new): a file that already exists in the output directory does not keep its old bytes
+    if cf is not None:
+        for c in [b for b in cf.calls() if cnorm(b.term) in ('std::fs::File::create', 'std::fs::File::create_new', 'std::fs::OpenOptions::open', 'std::fs::File::options')]:
+            cn5 = cnorm(c.term)
+            if cn5 == 'std::fs::File::options':
+                continue
+            fresh = True
+            why5 = cn5.rsplit('::', 1)[-1]
+            if cn5 == 'std::fs::OpenOptions::open':
+                oo = origins(cf, [c.term.args[0].place[0]]) if c.term.args[0].place is not None else None
+                owners = [l for l in (oo.locals if oo else []) if 'OpenOptions' in cf.lty(l) and not cf.lty(l).startswith('&')]
+                setters = {}
+                for l in owners:
+                    for ent in mutarg_defs(cf).get(l, []):
+                        t5 = ent[1]
+                        if t5.cmethod in ('truncate', 'create', 'create_new', 'append', 'write') and len(t5.args) > 1:
+                            setters[t5.cmethod] = const_eval(cf, t5.args[1])
+                for x in (oo.calls if oo else []):
+                    t5 = cf.blocks[x].term
+                    if t5.cmethod in ('truncate', 'create', 'create_new', 'append', 'write') and len(t5.args) > 1:
+                        setters[t5.cmethod] = const_eval(cf, t5.args[1])
+                # builder chain `options.write(true).create(true).truncate(true)`: each setter receives the reference returned by the previous one
+                for b5 in cf.calls():
+                    t5 = b5.term
+                    if t5.cmethod in ('truncate', 'create', 'create_new', 'append', 'write') and 'OpenOptions' in cnorm(t5) and len(t5.args) > 1 and t5.args[0].place is not None:
+                        if set(origins(cf, [t5.args[0].place[0]]).locals) & set(owners):
+                            setters[t5.cmethod] = const_eval(cf, t5.args[1])
+                fresh = (setters.get('create_new') == 1) or (setters.get('create') == 1 and setters.get('truncate') == 1 and setters.get('append') != 1)
+                why5 = 'OpenOptions %s' % sorted(setters.items())
+            rep.ob('R16.5', fresh, 'R16.5|%s|destination-created-empty' % cf.nkey, 'destination created empty (%s)' % why5 if fresh else
+                   'the destination file is opened without being emptied (%s): when it already exists its old content survives next to / under the extracted bytes' % why5, cf.loc(c.idx))
     # ---------------- R16.3 callers
     ex = one_body(prog, rep, 'R16.3', 'mlar', exact='extract')
     if ex is not None and ex.kind == 'Closure':
@@ -325,6 +357,15 @@ def run(prog, rep, tier):
                 tainted, how = True, 'derives from a member-name field'
             if norm(body.defpath) in ('create_file', 'get_extracted_path') and 2 in o.params:
                 tainted, how = True, 'derives from the member-name parameter'
+        CREATORS = ('std::fs::File::create', 'std::fs::File::create_new', 'std::fs::OpenOptions::open')
+        if key not in table and norm(body.defpath) == 'create_file' and cn in CREATORS:
+            # the creation call of create_file written with another std API: same sink, vetted by R16.2 (prefix test) and R16.5 (created fresh)
+            alt = [k for k in table if k.startswith('R16.4|%s|' % body.nkey) and k.split('|')[2].rsplit('#', 1)[0] in CREATORS]
+            if alt:
+                key_tab = alt[0]
+                e = table[key_tab]
+                rep.ob('R16.4', True, key, 'vetted member path sink (%s)' % e['reason'], body.loc(b.idx))
+                continue
         if key in table:
             e = table[key]
             if e['class'] == 'vetted-member-path':
